@@ -21,6 +21,14 @@ def dbits(x):
     return struct.unpack('<Q', struct.pack('<d', x))[0]
 
 
+def dfbits(x):
+    return struct.unpack('<I', struct.pack('<f', x))[0]
+
+
+def fval(b):
+    return struct.unpack('<f', struct.pack('<I', b))[0]
+
+
 def dval(b):
     return struct.unpack('<d', struct.pack('<Q', b))[0]
 
@@ -37,6 +45,13 @@ TWO63 = dbits(9223372036854775808.0)
 TWO64 = dbits(18446744073709551616.0)
 UTF8 = ['ä', 'ö€', '\U0001F600', '日本', 'µ']
 # construction routes of a writeCells request in harness/drv_C15.cpp (build_cells)
+NARROW = ['Int8', 'Int16', 'UInt8', 'UInt16', 'Float']     # further element types of the column templates (Hydra accepts them)
+NRANGE = {'Int8': (-128, 127), 'Int16': (-32768, 32767), 'UInt8': (0, 255), 'UInt16': (0, 65535)}
+NPFX = {'Int8': 'i8', 'Int16': 'i16', 'UInt8': 'u8', 'UInt16': 'u16'}
+FLT_EDGE = [0x00000000, 0x80000000, 0x3f800000, 0xbf800000, 0x40200000, 0xc0200000, 0x3dcccccd, 0x7f7fffff, 0xff7fffff, 0x00000001,
+            0x7f800000, 0xff800000, 0x4effffff, 0xcf000000, 0x4f7fffff, 0x5effffff, 0xdf000000, 0x5f7fffff, 0x4b800000, 0x42fe0000,
+            0x43000000, 0xc3000000, 0xc3008000, 0x477fff00, 0x47800000]
+FLT_QUIRK = [0x4f000000, 0x4f800000, 0x5f000000, 0x5f800000]        # 2^31 2^32 2^63 2^64 as floats: the rounded integer maxima (UB in HDF5)
 ROUTES = ['brace', 'assign', 'presized', 'reverse', 'rotate', 'swap', 'erase', 'insert', 'copy', 'move']
 
 
@@ -119,6 +134,22 @@ class Shadow:
             return hexs(bytes(r.choice(b'abcdefghij ') for _ in range(r.choice([255, 256, 1000, 4096]))))
         raise ValueError(t)
 
+    def elt_val(self, T, target=None):
+        """one element of a vector<T>; `target`: the column type it is converted into (to stay inside the domain)"""
+        r = self.r
+        if T in NRANGE:
+            lo, hi = NRANGE[T]
+            return '%s:%d' % (NPFX[T], r.choice([lo, hi, 0, 1, r.randint(lo, hi), r.randint(lo, hi)]))
+        if T == 'Float':
+            while True:
+                b = r.choice(FLT_EDGE) if r.random() < 0.5 else dfbits(r.choice([r.uniform(-1e6, 1e6), r.choice([-1, 1]) * 10 ** r.uniform(-20, 20)]))
+                if target in INTS and (b in FLT_QUIRK or ((b >> 23) & 0xff) == 0xff and (b & 0x7fffff)):
+                    continue
+                return 'f:%08x' % b
+        if T == 'Char':
+            return 'c:%d' % r.randint(-128, 127)
+        return self.val_of(T)
+
     def value_for(self, c, foreign):
         """a value to write into column c; `foreign` = of another (convertible, in-domain) type"""
         r = self.r
@@ -145,6 +176,9 @@ class Shadow:
         if v.startswith('d:'):
             if not widely_safe(int(v[2:], 16)):
                 self.dsafe[c] = False
+        elif v.startswith('f:'):
+            if not widely_safe(dbits(fval(int(v[2:], 16)))):
+                self.dsafe[c] = False
         elif v.startswith(('i32:', 'u32:', 'i64:', 'u64:')):
             if abs(int(v.split(':')[1])) >= 2 ** 62:
                 self.dsafe[c] = False
@@ -169,6 +203,8 @@ class Shadow:
         # how the harness puts the std::vector<Cell> together (the request itself is the same list of cells)
         route = r.choice(ROUTES)
         sfx = '' if route == 'brace' and r.random() < 0.5 else ':' + route
+        if sfx and r.random() < 0.4:
+            sfx += '/typed'          # Cell(name, const char*) / Cell(name, T) / Cell(int col, T) instead of Cell(.., Variant)
         if r.random() < 0.4:
             return 'wcells_n%s %d %d %s' % (sfx, row, len(cs), ' '.join('%s %s' % (hexs(self.cols[c][0]), self.value_for(c, r.random() < foreign)) for c in cs))
         if len(cs) == 1 and r.random() < 0.3:
@@ -180,10 +216,10 @@ class Shadow:
         if t == 'String':
             return 'String'
         if t == 'Bool':
-            return self.r.choice(INTS + ['Double'])          # there is no element type that converts into Bool
+            return self.r.choice(INTS + ['Double'] + NARROW)          # there is no element type that converts into Bool
         if not foreign:
             return t
-        return self.r.choice([x for x in INTS + ['Double'] if x != t])
+        return self.r.choice([x for x in INTS + ['Double'] + NARROW if x != t])
 
     def w_col(self, foreign=0.15, bad=0.0):
         r = self.r
@@ -224,7 +260,7 @@ class Shadow:
                     if in_domain(int(v[2:], 16), t):
                         break
             else:
-                v = self.val_of(T)
+                v = self.elt_val(T, t)
             vals.append(v)
             self.note_write(c, v)
         ref = ('wcol_n %s' % hexs(self.cols[c][0])) if r.random() < 0.5 else 'wcol_i %d' % c
@@ -235,14 +271,16 @@ class Shadow:
         if t == 'String':
             return 'String'
         if t == 'Double':
+            if foreign and self.r.random() < 0.3:
+                return 'Float'
             if foreign and self.dsafe[c]:
-                return self.r.choice(INTS)
+                return self.r.choice(INTS + NARROW[:4])
             return 'Double'
         if t == 'Bool':
-            return self.r.choice(INTS + ['Double'])
+            return self.r.choice(INTS + ['Double'] + NARROW)
         if not foreign:
             return t
-        return self.r.choice([x for x in INTS + ['Double'] if x != t])
+        return self.r.choice([x for x in INTS + ['Double'] + NARROW if x != t])
 
     def r_col(self, foreign=0.2, bad=0.0):
         r = self.r
@@ -273,7 +311,17 @@ class Shadow:
 
     def r_any(self, oob=0.05):
         r = self.r
-        k = r.choice(['row', 'row', 'cells', 'cell_n', 'cell_i', 'col', 'col', 'nrows'])
+        k = r.choice(['row', 'row', 'cells', 'cell_n', 'cell_i', 'col', 'col', 'nrows', 'colidxs', 'colnames'])
+        if k == 'colidxs':          # colIndex(vector<string>): any selection, repeats allowed, now and then an unknown name
+            ns = [self.cols[r.randrange(len(self.cols))][0] for _ in range(r.randint(0, 5))]
+            if r.random() < 0.1:
+                ns.insert(r.randint(0, len(ns)), 'nosuch')
+            return 'colidxs %d %s' % (len(ns), ' '.join(hexs(n) for n in ns))
+        if k == 'colnames':         # colName(vector<unsigned>)
+            ix = [r.randrange(len(self.cols)) for _ in range(r.randint(0, 5))]
+            if r.random() < 0.1:
+                ix.insert(r.randint(0, len(ix)), len(self.cols) + r.randint(0, 2))
+            return 'colnames %d %s' % (len(ix), ' '.join('%d' % i for i in ix))
         if k == 'row':
             return 'rrow %d' % self.row(oob)
         if k == 'cells':
@@ -345,6 +393,7 @@ class C15(Prop):
                    'double -> integer member conversion of NaN, of 2^63 into Int64 and of 2^64 into UInt64 is undefined behaviour inside '
                    'HDF5 (observed on this platform: INT_MIN / INT64_MIN / 0 / 2^63, INT64_MIN, 0); excluded from the domain (model: UB, '
                    'specification: ANY)',
+                   'the column templates are exercised for T in Int32 UInt32 Int64 UInt64 Double String Int8 Int16 UInt8 UInt16 Float (HDF5 converts; a float equal to 2^31 / 2^32 / 2^63 / 2^64 into an integer member is the same undefined cast as for doubles and excluded) and Char (refused: no memory type); ',
                    'std::vector<bool> cannot be passed to readColumn/writeColumn (does not compile): Bool columns are read through the '
                    'column path as integers / doubles and cannot be written through it']
     trusted_base = ['hand-written model and specification coq/Data/Frame.v (fstep, sstep), tied by the correspondence run',
@@ -441,6 +490,40 @@ class C15(Prop):
                  'rcol_i 0 Int64 1 0 0', 'rcol_i 1 Int32 1 0 0', 'rcol_i 2 Double 1 0 0', 'rcol_i 3 UInt32 1 0 0',
                  'reopen ro', 'rrow 1', 'rrow 2', 'rrow 3']
             cases.append(Case(L, 'cell-routes'))
+        # the column templates with the element types Hydra accepts beyond the six a Variant holds: int8/int16/uint8/uint16/float
+        # written into and read from columns of every type (HDF5 converts), char refused
+        for T in NARROW:
+            sh = Shadow(rnd, 1, True)
+            sh.cols = [('i', '', 'Int32'), ('u', '', 'UInt32'), ('l', '', 'Int64'), ('q', '', 'UInt64'), ('d', 's', 'Double'),
+                       ('b', '', 'Bool'), ('s', '', 'String')]
+            sh.dsafe = [True] * 7
+            L = [sh.new_line(), 'rows 6', 'wrow 0 7 i32:-5 u32:4000000000 i64:-9000000000 u64:18446744073709551615 d:400c000000000000 b:1 ' + hexs('x')]
+            for c in range(5):
+                L.append('wcol_i %d %s 1 0 5 %s' % (c, T, ' '.join(sh.elt_val(T, sh.cols[c][2]) for _ in range(5))))
+                L.append('rcol_i %d %s 1 0 0' % (c, sh.cols[c][2]))
+                L.append('rcol_n %s %s 1 0 0' % (hexs(sh.cols[c][0]), T))
+            L += ['wcol_i 5 %s 0 0 1 %s' % (T, sh.elt_val(T)), 'wcol_i 6 %s 0 0 1 %s' % (T, sh.elt_val(T)), 'rcol_i 5 %s 1 0 0' % T,
+                  'rcol_i 6 %s 1 0 0' % T, 'rcol_i 5 %s 0 2 3' % T, 'rcolc_i 0 %s 2 0 1 4' % T, 'rcol_i 0 %s 1 7 0' % T,
+                  'wcol_i 0 %s 0 4 2 %s' % (T, ' '.join(sh.elt_val(T, 'Int32') for _ in range(2))), 'rrow 0', 'rrow 5',
+                  'reopen ro', 'rcol_i 3 %s 1 0 0' % T, 'wcol_i 0 %s 0 0 1 %s' % (T, sh.elt_val(T, 'Int32'))]
+            cases.append(Case(L, 'narrow-elements'))
+        L = ['new 2 %s s: Int32 %s s: String' % (hexs('a'), hexs('s')), 'rows 2', 'wcol_i 0 Char 0 0 2 c:65 c:-1', 'wcol_i 0 Char 0 0 0',
+             'wcol_i 0 Char 0 3 2 c:65 c:66', 'wcol_n %s Char 0 0 1 c:1' % hexs('nosuch'), 'wcol_i 1 Char 0 0 1 c:1', 'wcol_i 2 Char 0 0 1 c:1',
+             'rcol_i 0 Char 1 0 0', 'rcol_i 0 Char 1 3 0', 'rcol_i 0 Char 0 0 0', 'rcolc_i 0 Char 3 0 0 2', 'rcol_i 1 Char 1 0 0', 'rcol_i 5 Char 1 0 0',
+             'rrow 0', 'reopen ro', 'wcol_i 0 Char 0 0 1 c:1', 'rcol_i 0 Char 1 0 0']
+        cases.append(Case(L, 'narrow-elements'))
+        # vector overloads of colIndex / colName
+        for k in range(1, 5):
+            sh = Shadow(rnd, 2 * k, False)
+            ns = [c[0] for c in sh.cols]
+            L = [sh.new_line(), 'colidxs %d %s' % (len(ns), ' '.join(hexs(n) for n in ns)),
+                 'colidxs %d %s' % (len(ns), ' '.join(hexs(n) for n in reversed(ns))), 'colidxs 0', 'colidxs 2 %s %s' % (hexs(ns[-1]), hexs(ns[-1])),
+                 'colidxs 3 %s %s %s' % (hexs(ns[0]), hexs('nosuch'), hexs(ns[1])), 'colidxs 1 ' + hexs('nosuch'),
+                 'colnames %d %s' % (len(ns), ' '.join('%d' % i for i in range(len(ns)))),
+                 'colnames %d %s' % (len(ns), ' '.join('%d' % i for i in reversed(range(len(ns))))), 'colnames 0',
+                 'colnames 3 0 %d 1' % len(ns), 'colnames 1 %d' % (len(ns) + 5), 'colnames 2 1 1', 'reopen ro',
+                 'colidxs 2 %s %s' % (hexs(ns[1]), hexs(ns[0])), 'colnames 2 1 0']
+            cases.append(Case(L, 'vector-overloads'))
         # 2. schemas 1..8: random histories
         for i in range(1200 * mult):
             ncols = 1 + i % 8
@@ -494,7 +577,7 @@ class C15(Prop):
                     sh.w_col(0, 1.0), sh.w_col(0, 1.0), sh.r_col(0, 1.0), sh.r_col(0, 1.0),
                     'rcolc_i %d %s 1 1 18446744073709551615 0' % (c, sh.elt_for_read(c, False))]
             T = sh.elt_for_write(c, False)
-            bad.append('wcol_i %d %s 18446744073709551615 1 1 %s' % (c, T, sh.val_of(T)))
+            bad.append("wcol_i %d %s 18446744073709551615 1 1 %s" % (c, T, sh.elt_val(T)))
             if t == 'Bool':
                 bad += ['wcell 0 %d i32:1' % c, 'wcell 0 %d d:3ff0000000000000' % c]
             rnd.shuffle(bad)
@@ -521,6 +604,47 @@ class C15(Prop):
                   'new 2 %s s: Double s: s: Int32' % a, 'new 2 s: s: Nothing %s s: Int32' % a]:
             cases.append(Case([L], 'malformed-create'))
         return cases
+
+    ENTRY_POINTS = {
+        'rows(n)': ['rows'], 'rows()': ['nrows'], 'columns()': ['schema'],
+        'colIndex(string)': ['colidx'], 'colName(unsigned)': ['colname'],
+        'colIndex(vector<string>)': ['colidxs'], 'colName(vector<unsigned>)': ['colnames'],
+        'writeRow': ['wrow'], 'writeCell': ['wcell'], 'writeCells (cells by name)': ['wcells_n'], 'writeCells (cells by index)': ['wcells_i'],
+        'readRow': ['rrow'], 'readCells': ['rcells'], 'readCell(row, name)': ['rcell_n'], 'readCell(row, col)': ['rcell_i'],
+        'writeColumn<T>(name, ..)': ['wcol_n'], 'writeColumn<T>(col, ..)': ['wcol_i'],
+        'readColumn<T>(name, vals, resize, offset)': ['rcol_n'], 'readColumn<T>(col, vals, resize, offset)': ['rcol_i'],
+        'readColumn<T>(name, vals, count, resize, offset)': ['rcolc_n'], 'readColumn<T>(col, vals, count, resize, offset)': ['rcolc_i'],
+        'Block::createDataFrame': ['new'],
+    }
+
+    def extra_checks(self, ctx):
+        """which public entry points the generated cases call, and how often (evidence only)"""
+        cases = self.generate(ctx['seed'], ctx['tier'], 1)
+        cmd, elt_w, elt_r, routes, ctors = {}, {}, {}, {}, {'Cell(name|unsigned, Variant)': 0, 'Cell(name, const char*) / Cell(name, T) / Cell(int, T)': 0}
+        for c in cases:
+            for l in c.lines:
+                tk = l.split(' ')
+                base = tk[0].split(':')[0]
+                cmd[base] = cmd.get(base, 0) + 1
+                if base in ('wcol_n', 'wcol_i'):
+                    elt_w[tk[2]] = elt_w.get(tk[2], 0) + 1
+                if base in ('rcol_n', 'rcol_i', 'rcolc_n', 'rcolc_i'):
+                    elt_r[tk[2]] = elt_r.get(tk[2], 0) + 1
+                if base in ('wcells_n', 'wcells_i'):
+                    rt = tk[0].split(':')[1] if ':' in tk[0] else 'brace'
+                    typed = rt.endswith('/typed')
+                    rt = rt.split('/')[0]
+                    routes[rt] = routes.get(rt, 0) + 1
+                    ctors['Cell(name, const char*) / Cell(name, T) / Cell(int, T)' if typed else 'Cell(name|unsigned, Variant)'] += 1
+        ctx['ev']['entry_points'] = {k: sum(cmd.get(x, 0) for x in v) for k, v in self.ENTRY_POINTS.items()}
+        ctx['ev']['column_template_element_types'] = {'writeColumn<T>': elt_w, 'readColumn<T>': elt_r}
+        ctx['ev']['writeCells_construction_routes'] = routes
+        ctx['ev']['cell_constructors'] = ctors
+        ctx['ev']['cell_copy_move_assign_on_read'] = cmd.get('rcells', 0)
+        ctx['ev']['entry_points_not_covered'] = ['readColumn/writeColumn<bool>: std::vector<bool> does not compile with Hydra',
+                                                 'createDataFrame with an explicit Compression argument (pure forward; compression is not observable through the API)',
+                                                 'DataFrameDimension::ticks<T> (covered by C13)']
+        return []
 
     # ---- reporting -------------------------------------------------------------------------------
     def signature(self, case, impl, spec):
